@@ -66,6 +66,7 @@ struct ArmedFault {
     kind: FaultKind,
     seen: u32,
     fired_at: Option<std::time::Instant>,
+    delay: std::time::Duration,
 }
 
 static FAULT: Mutex<Option<ArmedFault>> = Mutex::new(None);
@@ -78,6 +79,20 @@ pub fn arm_fault(name: &str, nth: u32, kind: FaultKind) {
         kind,
         seen: 0,
         fired_at: None,
+        delay: std::time::Duration::ZERO,
+    });
+}
+
+/// Like `arm_fault`, but the thread lingers at the fault point for `delay` before it fails (a
+/// worker that hangs for a while and then dies).
+pub fn arm_fault_delayed(name: &str, nth: u32, kind: FaultKind, delay: std::time::Duration) {
+    *FAULT.lock().unwrap() = Some(ArmedFault {
+        name: name.to_owned(),
+        nth,
+        kind,
+        seen: 0,
+        fired_at: None,
+        delay,
     });
 }
 
@@ -88,24 +103,34 @@ pub fn fault_fired_at() -> Option<std::time::Instant> {
 
 /// Named fault point. Returns true if the caller must return early; panics if armed to panic.
 pub fn fault_point(name: &str) -> bool {
-    let kind = {
+    let reached = {
         let mut guard = match FAULT.lock() {
             Ok(g) => g,
             Err(_) => return false,
         };
         match guard.as_mut() {
-            Some(f) if f.name == name && f.fired_at.is_none() => {
-                if f.seen == f.nth {
-                    f.fired_at = Some(std::time::Instant::now());
-                    Some(f.kind)
+            Some(f) if f.name == name && f.fired_at.is_none() && f.seen <= f.nth => {
+                f.seen += 1;
+                if f.seen == f.nth + 1 {
+                    Some((f.kind, f.delay))
                 } else {
-                    f.seen += 1;
                     None
                 }
             }
             _ => None,
         }
     };
+    let kind = reached.map(|(kind, delay)| {
+        if !delay.is_zero() {
+            std::thread::sleep(delay);
+        }
+        if let Ok(mut guard) = FAULT.lock() {
+            if let Some(f) = guard.as_mut() {
+                f.fired_at = Some(std::time::Instant::now());
+            }
+        }
+        kind
+    });
     match kind {
         Some(FaultKind::Panic) => panic!("verif: injected fault at {}", name),
         Some(FaultKind::Return) => true,
